@@ -254,7 +254,12 @@ fn hot_reloading_thread(
                 }
                 Ok(CacheMessage::Clear) => cache.clear_local_cache(),
                 Ok(CacheMessage::AddAsset(infos)) => cache.add_asset(infos),
-                Err(_) => break,
+                Err(channel::TryRecvError::Empty) => break,
+                // The cache was dropped, we can stop now
+                Err(channel::TryRecvError::Disconnected) => {
+                    log::info!("Stopping hot-reloading");
+                    return;
+                }
             }
         }
 
